@@ -29,6 +29,8 @@ def histories(rng, tier):
             elif r < 0.38:
                 a = rng.randrange(c.npix)
                 b = rng.randint(a, min(c.npix, a + rng.choice([1, 5, 3 * c.nfine + 1])))
+                if rng.random() < 0.15:
+                    b = rng.choice([0, 0, a // 2])            # a slice that selects nothing (stop 0, stop < start)
                 if rng.random() < 0.2:
                     h.append("set %s slice=%d:%d:%d none=1" % (c.name, a, b, rng.choice([1, 1, 2, 3])))
                 else:
